@@ -492,6 +492,24 @@ fn faults_for(mode: Mode, tier: Tier, seed: u64, img: &ImageInfo) -> Vec<Fault> 
             };
             out.push(Fault::Multi(vec![a, bb]));
         }
+        // (C05 / C06) two sites in one pack: a bit of the 64-byte header block (its CRC then fails)
+        // together with a bit of the header's mirror image at the very end of the pack - whatever
+        // falls back on the tail copy must verify that copy too
+        if mode != Mode::C04 {
+            for span in &img.spans[fi] {
+                let tail_end = span.start + span.size + if span.kind == b'C' { 5 } else { 0 };
+                if tail_end > len || span.size < 128 {
+                    continue;
+                }
+                for i in (0..60u64).step_by(if small { 1 } else { 3 }) {
+                    // header byte i is mirrored at tail_end - 1 - i
+                    out.push(Fault::Multi(vec![
+                        Fault::Flip { file: fi, pos: span.start + (i * 7 + 5) % 60, mask: 0x04 },
+                        Fault::Flip { file: fi, pos: tail_end - 1 - i, mask: *rng.pick(&[0x01u8, 0x20, 0x80]) },
+                    ]));
+                }
+            }
+        }
         // (C04, C05) an altered content pack next to another content pack that is not there at all:
         // the container check covers the packs that are present, whichever of them is missing
         if mode != Mode::C06 && img.spans[fi].first().map(|s| s.kind) == Some(b'c') {
